@@ -36,6 +36,7 @@ import (
 	"net/http"
 	"net/http/httptest"
 	"os"
+	"runtime"
 	"strings"
 	"sync"
 	"sync/atomic"
@@ -134,6 +135,7 @@ type verifC08Scn struct {
 	pres     bool
 	cprog    string
 	jl       bool
+	mapsub   bool
 	tsched   *verifC08Sched
 	wg       sync.WaitGroup
 	ended    map[string]chan struct{}
@@ -165,7 +167,7 @@ func (s *verifC08Scn) gate(name, label string) {
 
 func (s *verifC08Scn) setup(kv map[string]string) {
 	s.gates = map[string]chan struct{}{}
-	for _, g := range []string{"cing", "conn", "alive", "disc", "unsub", "join"} {
+	for _, g := range []string{"cing", "conn", "alive", "disc", "unsub", "join", "page"} {
 		s.gates[g] = make(chan struct{})
 	}
 	s.arrivals = make(chan string, 64)
@@ -178,9 +180,13 @@ func (s *verifC08Scn) setup(kv map[string]string) {
 	s.pres = kv["pres"] == "1"
 	s.cprog = kv["cprog"]
 	s.jl = kv["jl"] == "1"
+	s.mapsub = kv["map"] == "1"
 	s.tsched = &verifC08Sched{}
 	node, err := New(Config{LogLevel: LogLevelNone, ClientStaleCloseDelay: 240 * time.Hour,
-		ClientPresenceUpdateInterval: 240 * time.Hour, ClientTimerScheduler: s.tsched})
+		ClientPresenceUpdateInterval: 240 * time.Hour, ClientTimerScheduler: s.tsched,
+		Map: MapConfig{GetMapChannelOptions: func(channel string) MapChannelOptions {
+			return MapChannelOptions{Mode: MapModeEphemeral, KeyTTL: 60 * time.Second, MinPageSize: 1}
+		}}})
 	if err != nil {
 		panic(err)
 	}
@@ -217,7 +223,11 @@ func (s *verifC08Scn) setup(kv map[string]string) {
 		c.OnDisconnect(func(e DisconnectEvent) { s.gate("disc", "disconnect") })
 		c.OnSubscribe(func(e SubscribeEvent, cb SubscribeCallback) {
 			s.ev("sub:" + e.Channel + "+")
-			cb(SubscribeReply{Options: SubscribeOptions{EmitPresence: s.pres}}, nil)
+			if e.Channel == "m1" {
+				cb(SubscribeReply{Options: SubscribeOptions{Type: SubscriptionTypeMap}}, nil)
+			} else {
+				cb(SubscribeReply{Options: SubscribeOptions{EmitPresence: s.pres}}, nil)
+			}
 			s.ev("sub:" + e.Channel + "-")
 		})
 		c.OnUnsubscribe(func(e UnsubscribeEvent) { s.gate("unsub", "unsub:"+e.Channel) })
@@ -229,6 +239,21 @@ func (s *verifC08Scn) setup(kv map[string]string) {
 			panic(err)
 		}
 		node.SetBroker(&verifC08Broker{MemoryBroker: mb, s: s})
+	}
+	if s.mapsub {
+		mbk, err := NewMemoryMapBroker(node, MemoryMapBrokerConfig{})
+		if err != nil {
+			panic(err)
+		}
+		if err := mbk.RegisterEventHandler(nil); err != nil {
+			panic(err)
+		}
+		node.SetMapBroker(mbk)
+		for _, key := range []string{"a", "b", "c", "d"} {
+			if _, err := mbk.Publish(context.Background(), "m1", key, MapPublishOptions{Data: []byte(`{"v":1}`)}); err != nil {
+				panic(err)
+			}
+		}
 	}
 	if err := node.Run(); err != nil {
 		panic(err)
@@ -275,6 +300,32 @@ func (s *verifC08Scn) hasReply(id uint32) bool {
 	return false
 }
 
+func (s *verifC08Scn) subReply(id uint32) *protocol.SubscribeResult {
+	s.tr.mu.Lock()
+	defer s.tr.mu.Unlock()
+	for _, f := range s.tr.frames {
+		rep, _ := protocol.NewJSONReplyDecoder(f).Decode()
+		if rep != nil && rep.Id == id && rep.Error == nil && rep.Subscribe != nil {
+			return rep.Subscribe
+		}
+	}
+	return nil
+}
+
+// blockedIn reports whether some goroutine is parked in a select inside fn (an observation of the
+// scheduler state, used like a gate arrival for code that has no callback at that point).
+func verifC08BlockedIn(fn string) bool {
+	buf := make([]byte, 1<<20)
+	n := runtime.Stack(buf, true)
+	for _, g := range strings.Split(string(buf[:n]), "\n\n") {
+		header, _, _ := strings.Cut(g, "\n")
+		if strings.Contains(header, "[select") && strings.Contains(g, fn+"(") {
+			return true
+		}
+	}
+	return false
+}
+
 func (s *verifC08Scn) actor(name string, after *atomic.Value) {
 	defer s.wg.Done()
 	defer close(s.ended[name])
@@ -293,6 +344,21 @@ func (s *verifC08Scn) actor(name string, after *atomic.Value) {
 			ok = HandleReadFrame(s.client, bytes.NewReader(verifC08Cmd(&protocol.Command{Id: 2, Subscribe: &protocol.SubscribeRequest{Channel: "c1"}})), 65536)
 			if s.client.IsSubscribed("c1") {
 				s.ev("est:c1")
+			}
+		}
+		if ok && strings.Contains(s.cprog, "m") && s.mapsub {
+			// a map subscription is loaded with several commands: first state page (2 of 4 keys) …
+			ok = HandleReadFrame(s.client, bytes.NewReader(verifC08Cmd(&protocol.Command{Id: 4, Subscribe: &protocol.SubscribeRequest{
+				Channel: "m1", Type: int32(SubscriptionTypeMap), Phase: MapPhaseState, Limit: 2}})), 65536)
+			p1 := s.subReply(4)
+			if ok && p1 != nil && p1.Cursor != "" {
+				s.gate("page", "page") // … the client is between two pages …
+				ok = HandleReadFrame(s.client, bytes.NewReader(verifC08Cmd(&protocol.Command{Id: 5, Subscribe: &protocol.SubscribeRequest{
+					Channel: "m1", Type: int32(SubscriptionTypeMap), Phase: MapPhaseState, Limit: 2, Cursor: p1.Cursor}})), 65536)
+				// … last page: the server answers LIVE, the subscription is established
+				if p2 := s.subReply(5); p2 != nil && p2.Phase == MapPhaseLive {
+					s.ev("est:m1")
+				}
 			}
 		}
 		if ok && strings.Contains(s.cprog, "u") {
@@ -327,6 +393,9 @@ func (s *verifC08Scn) actor(name string, after *atomic.Value) {
 		ch := "c1"
 		if s.ss {
 			ch = "s1"
+		}
+		if s.mapsub {
+			ch = "m1"
 		}
 		// through the node API: only clients registered in the hub are reachable by an application
 		_ = s.node.Unsubscribe("u", ch)
@@ -409,6 +478,22 @@ func (s *verifC08Scn) sched(labels []string, budget time.Duration) string {
 			}
 			continue
 		}
+		if l == "b:unsubwait" { // wait until an unsubscribe sits in its wait gate
+			deadline := time.Now().Add(budget * 10)
+			seen := false
+			for time.Now().Before(deadline) {
+				if verifC08BlockedIn("centrifuge.(*Client).unsubscribe") {
+					seen = true
+					break
+				}
+				runtime.Gosched()
+				time.Sleep(200 * time.Microsecond)
+			}
+			if !seen {
+				skipped++
+			}
+			continue
+		}
 		arriveOnly := strings.HasPrefix(l, "a:") // wait until a goroutine is parked, do not release
 		g := strings.TrimPrefix(strings.TrimPrefix(l, "r:"), "a:")
 		if _, ok := s.gates[g]; !ok {
@@ -446,7 +531,7 @@ func (s *verifC08Scn) sched(labels []string, budget time.Duration) string {
 	}
 	est := []string{}
 	s.mu.Lock()
-	for _, sub := range []string{"s1", "c1"} {
+	for _, sub := range []string{"s1", "c1", "m1"} {
 		for _, e := range s.log {
 			if e == "est:"+sub || e == "unsub:"+sub+"+" {
 				est = append(est, sub)
